@@ -259,17 +259,17 @@ def _inside(node: ast.AST, container: ast.AST) -> bool:
 
 
 def run(ctx: Ctx) -> None:
-    T.t_g1(ctx, "1/T.G1")
-    T.t_g4(ctx, "2/T.G4")
-    T.t_g3(ctx, "3/T.G3")
-    T.t_o1(ctx, "4/T.O1")
-    N.readiness_table(ctx, "5", "setup")
-    N.readiness_table(ctx, "5c", "cleanup")
-    N.run_decision_table(ctx, "6")
-    scan_states_rule(ctx, "7")
-    pass_only_rule(ctx, "8")
-    pull_locations_rule(ctx, "9")
-    T.t_g5(ctx, "10/T.G5")
+    ctx.call(T.t_g1, "1/T.G1")
+    ctx.call(T.t_g4, "2/T.G4")
+    ctx.call(T.t_g3, "3/T.G3")
+    ctx.call(T.t_o1, "4/T.O1")
+    ctx.call(N.readiness_table, "5", "setup")
+    ctx.call(N.readiness_table, "5c", "cleanup")
+    ctx.call(N.run_decision_table, "6")
+    ctx.call(scan_states_rule, "7")
+    ctx.call(pass_only_rule, "8")
+    ctx.call(pull_locations_rule, "9")
+    ctx.call(T.t_g5, "10/T.G5")
 
 
 G = "cartgraph/graph.py"
